@@ -74,8 +74,10 @@ def reLit (fn attr : String) : Rx :=
 def getLabels (txt : List Nat) : List (List Nat) :=
   (reFindall (reLit "_get_labels" "findall") txt).map fun l => l.filter (· != 35)
 
-/-- `re.sub('#[a-zA-Z0-9_-]+','', txt).strip()` of `_ctparse` -/
-def stripLabels (txt : List Nat) : List Nat := stripBy isPySpace (reRemove (reLit "_ctparse" "sub") txt)
+/-- `re.sub('#[a-zA-Z0-9_-]+','', txt).strip()` of `_ctparse`, then (repaired, DESIGN §8 D31) the runs of blanks a label cut
+    out of the middle leaves behind are collapsed again: `re.sub(' +', ' ', …)` -/
+def stripLabels (txt : List Nat) : List Nat :=
+  collapse (fun c => c == 32) 32 (stripBy isPySpace (reRemove (reLit "_ctparse" "sub") txt))
 
 /-- `str.split()` : maximal runs of non-whitespace -/
 def splitWsGo : List Nat → List Nat → List (List Nat)
